@@ -65,6 +65,10 @@ CANDIDATES = {
                        variant("v2", [[mp("7", "ident3", None, "st.a")]])],
     "field-any-item": [variant("v1", [[mp("17", "ident4", None, "items.code")]]),
                        variant("v2", [[mp("5", "ident1", "v")]])],
+    # hexadecimal expected values of byte fields in lower and mixed case
+    "bytes-lowercase": [variant("v1", [[mp("abcd", "ident3", None, "st.serial")]]),
+                        variant("v2", [[mp("aBcE", "ident3", None, "st.serial")]]),
+                        variant("v3", [[mp("ABCF", "ident3", None, "st.serial")]])],
     "noncanonical-expected": [variant("v1", [[mp("05", "ident1", "v")]]),
                               variant("v2", [[mp("5", "ident1", "v")]])],
     "float-value": [variant("v1", [[mp("1.5", "ident5", "f")]]), variant("v2", [[mp("2.5", "ident5", "f")]]),
@@ -330,7 +334,7 @@ STUBS = ["int/str/bytes shims (str(int) and bytes.hex() yield symbolic text that
 
 def configs(tier, seed):
     out = []
-    rlens = [3, 4, 5, 6, 7] if tier == "quick" else [0, 1, 2, 3, 4, 5, 6, 7, 8, 9]
+    rlens = [3, 4, 5, 6, 7] if tier == "quick" else [0, 1, 2, 3, 4, 5, 6, 7, 8, 9, 10, 11]
     for name in CANDIDATES:
         for rlen in rlens:
             for cache in (True, False):
@@ -338,7 +342,7 @@ def configs(tier, seed):
                             "harness": "match", "cand": name, "rlen": rlen, "cache": cache,
                             "build": {"cand": name}})
                 if name in ("all-params", "any-pattern", "shared-and-distinct", "base-variants") \
-                        and rlen in (4, 5):
+                        and (rlen in (4, 5) or tier != "quick"):
                     for silent in ("first", "later"):
                         out.append({"id": f"match/{name}/rlen{rlen}/{'cache' if cache else 'nocache'}"
                                           f"/silent-{silent}",
@@ -350,7 +354,7 @@ def configs(tier, seed):
 BOUNDS = {"quick": "17 candidate lists (1..3 variants, 0..2 patterns, 1..2 matching parameters, "
                    "SNREF and SNPATHREF into structures and fields, integer and byte-field values); "
                    "every ECU response of 3..6 bytes; cache on and off",
-          "thorough": "responses of 0..8 bytes"}
+          "thorough": "responses of 0..11 bytes; silent-ECU variants at every length"}
 ASSUMPTIONS = [
     "the ECU is deterministic: the same request always gets the same (symbolic) response",
     "'values decoded from the response' means the layout of any response of the identification "
